@@ -3,10 +3,18 @@
 // Script on stdin, one JSON line per input line.  No command-line arguments.
 //   fresh <path>          remove + create the directory and make it current
 //   put <name> <size>     create a regular file of <size> bytes in the current directory
-//   dump <max>            write_all(current directory, <max>)   -> listing
+//   dump <max> [<ws> <imds> <ga>]   write_all(current directory, <max>) of a rule set whose three items have the
+//                         given modes (none|disabled|audit|enforce; default none)   -> listing
+//   start                 the agent's real start-up path up to and including the start banner:
+//                         service::start_service polled once (setup_loggers on config::get_logs_dir(), i.e.
+//                         the logFolder of the proxy-agent.json beside THIS executable, then the start line)
+//                         -> listing of that folder.  Loggers are process-global: one restart = one process
+//   a <len> / c <len>     one Info line through the agent logger / the connection logger  -> listing
 //   cfgcap                gpa::common::config::get_max_event_file_count()
 //   ls                    listing
-use gpa::proxy::authorization_rules::{AuthorizationRulesForLogging, ComputedAuthorizationRules};
+use gpa::proxy::authorization_rules::{
+    AuthorizationMode, AuthorizationRulesForLogging, ComputedAuthorizationItem, ComputedAuthorizationRules,
+};
 use std::io::{BufRead, Write};
 use std::path::{Path, PathBuf};
 
@@ -23,12 +31,31 @@ fn listing(dir: &Path) -> serde_json::Value {
     serde_json::json!(v)
 }
 
+fn item(mode: &str) -> Option<ComputedAuthorizationItem> {
+    let mode = match mode {
+        "disabled" => AuthorizationMode::Disabled,
+        "audit" => AuthorizationMode::Audit,
+        "enforce" => AuthorizationMode::Enforce,
+        _ => return None,
+    };
+    Some(ComputedAuthorizationItem {
+        id: "c19".to_string(),
+        defaultAllowed: true,
+        mode,
+        privileges: Default::default(),
+        privilegeAssignments: Default::default(),
+        identities: Default::default(),
+    })
+}
+
+struct Noop;
+impl std::task::Wake for Noop {
+    fn wake(self: std::sync::Arc<Self>) {}
+}
+
 pub fn main() {
     // write_all touches neither common::config nor the loggers (LOGGERS unset -> no file log)
-    let rules = AuthorizationRulesForLogging::new(
-        None,
-        ComputedAuthorizationRules { wireserver: None, imds: None, hostga: None },
-    );
+    let mut rt: Option<tokio::runtime::Runtime> = None;
     let stdin = std::io::stdin();
     let stdout = std::io::stdout();
     // the library prints its own console lines to stdout: results are prefixed to tell them apart
@@ -60,8 +87,40 @@ pub fn main() {
                 std::fs::write(cur.join(p[1]), vec![b'p'; size]).unwrap();
                 serde_json::json!("ok")
             }
+            "start" => {
+                use std::future::Future;
+                let r = tokio::runtime::Builder::new_current_thread().enable_all().build().unwrap();
+                let done = r.block_on(async {
+                    let shared_state = gpa::shared_state::SharedState::start_all();
+                    let mut f = Box::pin(gpa::service::start_service(shared_state));
+                    let waker = std::task::Waker::from(std::sync::Arc::new(Noop));
+                    let mut cx = std::task::Context::from_waker(&waker);
+                    f.as_mut().poll(&mut cx).is_ready()
+                });
+                rt = Some(r); // the spawned tasks (key keeper, redirector, proxy) are never driven
+                cur = gpa::common::config::get_logs_dir();
+                serde_json::json!({"r": if done {"ok"} else {"pending"}, "ls": listing(&cur)})
+            }
+            "a" | "c" => {
+                let len: usize = p[1].parse().unwrap();
+                if p[0] == "a" {
+                    gpa::common::logger::write_information("x".repeat(len));
+                } else {
+                    proxy_agent_shared::logger::logger_manager::log(
+                        gpa::proxy::proxy_connection::ConnectionLogger::CONNECTION_LOGGER_KEY.to_string(),
+                        proxy_agent_shared::logger::LoggerLevel::Info,
+                        "y".repeat(len),
+                    );
+                }
+                serde_json::json!({"r": "ok", "ls": listing(&cur)})
+            }
             "dump" => {
                 let max: usize = p[1].parse().unwrap();
+                let m = |i: usize| if p.len() > i { p[i] } else { "none" };
+                let rules = AuthorizationRulesForLogging::new(
+                    None,
+                    ComputedAuthorizationRules { wireserver: item(m(2)), imds: item(m(3)), hostga: item(m(4)) },
+                );
                 let r = std::panic::catch_unwind(std::panic::AssertUnwindSafe(|| rules.write_all(&cur, max)));
                 serde_json::json!({"r": if r.is_ok() {"ok"} else {"panic"}, "ls": listing(&cur)})
             }
